@@ -231,7 +231,7 @@ _BUILTINS = {
     'ord': ord, 'chr': chr, 'int': int, 'str': str, 'bytes': bytes, 'bytearray': bytearray,
     'divmod': divmod, 'abs': abs, 'bool': bool, 'float': float, 'any': any, 'all': all,
     'reversed': lambda x: list(reversed(x)), 'enumerate': lambda *a, **k: list(enumerate(*a, **k)),
-    'zip': lambda *a: list(zip(*a)), 'isinstance': isinstance, 'iter': iter, 'next': lambda it, *d: next(iter(it), *d),
+    'zip': lambda *a: list(zip(*a)), 'isinstance': isinstance, 'iter': iter, 'next': lambda it, *d: next(it if hasattr(it, '__next__') else iter(it), *d),
     'None': None, 'True': True, 'False': False, 'round': round, 'repr': repr, 'hex': hex, 'vars': vars,
     'namedtuple': collections.namedtuple,
     'map': lambda f, *its: [f(*a) for a in zip(*its)], 'filter': lambda f, it: [x for x in it if (f(x) if f is not None else x)],
@@ -306,7 +306,7 @@ _PURE_MODULES = {   # `import X` / `from X import y` of side-effect-free stdlib 
     'math': {k: getattr(_math, k) for k in ('ceil', 'floor', 'sqrt', 'log', 'log2', 'gcd', 'trunc', 'fabs', 'isnan', 'isinf', 'isfinite', 'inf', 'pi')},
     'string': {k: getattr(_string, k) for k in ('digits', 'ascii_letters', 'ascii_uppercase', 'ascii_lowercase', 'hexdigits', 'punctuation')},
     'operator': {k: getattr(operator, k) for k in ('add', 'sub', 'mul', 'floordiv', 'truediv', 'mod', 'lt', 'le', 'gt', 'ge', 'eq', 'ne', 'xor', 'or_', 'and_',
-                                                  'not_', 'neg', 'itemgetter', 'attrgetter', 'lshift', 'rshift', 'getitem', 'contains', 'is_', 'is_not', 'truth')},
+                                                  'not_', 'neg', 'itemgetter', 'attrgetter', 'methodcaller', 'index', 'concat', 'countOf', 'indexOf', 'pos', 'inv', 'invert', 'lshift', 'rshift', 'getitem', 'contains', 'is_', 'is_not', 'truth')},
     'itertools': {'product': lambda *a, **k: list(_it.product(*a, **k)), 'chain': None, 'repeat': None, 'islice': lambda it, *a: list(_it.islice(it, *a)),
                   'zip_longest': lambda *a, **k: list(_it.zip_longest(*a, **k)), 'groupby': lambda it, key=None: [(k_, list(g)) for k_, g in _it.groupby(it, key)],
                   'accumulate': _listify(_it.accumulate), 'starmap': _listify(_it.starmap), 'takewhile': _listify(_it.takewhile),
